@@ -242,5 +242,5 @@ func (e *c10Env) runReverseCases(rng *kit.RNG, nCases int) {
 }
 
 func TestVerifC10Reverse(t *testing.T) {
-	c10Run(t, "reverse", true, kit.Scale(80, 900), kit.Scale(120, 253))
+	c10Run(t, "reverse", true, kit.Scale(64, 700), kit.Scale(120, 253))
 }
